@@ -40,6 +40,7 @@ import (
 	"github.com/echovault/sugardb/internal/raft"
 	"github.com/echovault/sugardb/internal/snapshot"
 	"github.com/echovault/sugardb/internal/verif"
+	"github.com/tidwall/resp"
 	"io"
 	"log"
 	"net"
@@ -509,8 +510,12 @@ func (server *SugarDB) handleConnection(conn net.Conn) {
 		}
 	}()
 
+	// Commands are framed by a RESP reader that lives as long as the connection: a command may arrive
+	// split over several reads, several commands may arrive in one read, and each gets its own reply.
+	reader := resp.NewReader(r)
+
 	for {
-		message, err := internal.ReadMessage(r)
+		value, _, err := reader.ReadValue()
 
 		if err != nil && errors.Is(err, io.EOF) {
 			// Connection closed
@@ -518,6 +523,12 @@ func (server *SugarDB) handleConnection(conn net.Conn) {
 			break
 		}
 
+		if err != nil {
+			log.Println(err)
+			break
+		}
+
+		message, err := value.MarshalRESP()
 		if err != nil {
 			log.Println(err)
 			break
